@@ -16,6 +16,7 @@
 import GEVerif.Model.Linear
 import GEVerif.Lemmas.SynM
 import GEVerif.Lemmas.Genotype
+import GEVerif.Lemmas.StackMachine
 
 namespace GEVerif.C07
 open GEVerif GEVerif.Genotype
@@ -152,5 +153,54 @@ example : (match mapDSGE (analyse witnessSpec) 3 20 [(.cls 0, [1, 1, 0, 0, 0])] 
     | .ok v s => v == witnessP2 && s.dna == [(.cls 0, [1, 1, 0, 0, 0])] &&
         (match s.src with | .scripted sh => sh.pos == 0 | _ => false)
     | _ => false) = true := by decide +kernel
+
+/-! ### The stack machine (`StackBasedGGGPRepresentation.genotype_to_phenotype`) -/
+
+/-- Through the whole loop of `create_tree_using_stacks` — from ANY stacks, failure count and
+state, program or exception — a genotype-backed source stays the same genotype. -/
+theorem C07_stack_source_never_leaves_genotype (g : Grammar) (order : List Ty) (limit fuel : Nat)
+    (st : Stack.Stacks) (failures : Nat) (s : SynSt) (x : GeneSrc) (hs : s.src = .gene x) :
+    ∃ y, (Stack.loop g order limit fuel st failures s).state.src = .gene y ∧ y.dna = x.dna :=
+  StackLemmas.loop_respects geneKept_stepRel g order limit fuel st failures s x hs
+
+/-- Stack mapping: by definition a function of (grammar, symbol list, failure limit, fuel, genes)
+run on the state whose only random source is the genotype, with empty stacks and no failures —
+there is no other stream it could draw from … -/
+theorem C07_mapStack_deterministic (g : Grammar) (order : List Ty) (limit fuel : Nat)
+    (dna : List Int) :
+    Stack.mapStack g order limit fuel dna =
+      Stack.loop g order limit fuel (order.map fun t => (t, [])) 0
+        { src := .gene { dna := dna, index := 0 } } ∧
+    ∃ y, (Stack.mapStack g order limit fuel dna).state.src = .gene y ∧ y.dna = dna :=
+  ⟨rfl, StackLemmas.mapStack_geneKept g order limit fuel dna⟩
+
+/-- … and at the end of the mapping, whether it returns a program or raises, that source is
+still the same genotype (only the cursor moved): nothing else was ever drawn from, and the
+genotype was not modified. -/
+theorem C07_mapStack_keeps_genotype (g : Grammar) (order : List Ty) (limit fuel : Nat)
+    (dna : List Int) :
+    (∀ v s', Stack.mapStack g order limit fuel dna = .ok v s' → ∃ y, s'.src = .gene y ∧ y.dna = dna) ∧
+    (∀ e s', Stack.mapStack g order limit fuel dna = .err e s' → ∃ y, s'.src = .gene y ∧ y.dna = dna) := by
+  have h := StackLemmas.mapStack_geneKept g order limit fuel dna
+  constructor
+  · intro v s' hr
+    rw [hr] at h
+    exact h
+  · intro e s' hr
+    rw [hr] at h
+    exact h
+
+/-! #### Non-vacuity (stack machine) -/
+
+/-- a run that really reads genes (three symbols drawn, the second step builds the node): the
+source at the end is the genotype, cursor moved -/
+example : Stack.mapStack StackLemmas.stackRefG StackLemmas.stackRefOrder 100 10 [0, 200000, 0] =
+    .ok (.node 0 0 0 [.int 0]) { src := .gene { dna := [0, 200000, 0], index := 2 } } := by rfl
+
+/-- a longer run (13 steps, 21 genes read) returning a program, and one that raises -/
+example : StackLemmas.okVal (Stack.mapStack StackLemmas.stackExG StackLemmas.stackExOrder 100 50
+    StackLemmas.stackExDna) StackLemmas.stackExVal = true := by decide +kernel
+example : StackLemmas.errIs (Stack.mapStack StackLemmas.stackExG StackLemmas.stackExOrder 3 50 [0, 0])
+    .library = true := by decide +kernel
 
 end GEVerif.C07
